@@ -235,6 +235,11 @@ let handle (req : sexp) : sexp =
     let counts = Array.make n_groups 0 in
     for g = 0 to n_groups - 1 do counts.(out_pos g) <- count_of g done;
     zl (build_group_sorted_indexer chs (List.map z_of_int (Array.to_list counts)) key_map mask)
+  | L [A "nan_reduce"; d; op; vals; nt] ->
+    let D (o, rd, pr) = dom_of d in
+    let vl = List.map (fun x -> rd (atom x)) (lst vals) in
+    let nop = (match atom op with "sum" -> NSum | "min" -> NMin | "max" -> NMax | "sum_square" -> NSumSquare | s -> failwith ("bad nanop " ^ s)) in
+    A (pr (nan_reduce o nop vl (nat_of nt)))
   | L (A op :: _) -> failwith ("unknown op " ^ op)
   | _ -> failwith "bad request"
 
